@@ -27,9 +27,17 @@ type Script struct {
 	declared  map[string]string // symbol -> sort (for declare-const / define-fun symbols)
 	nextID    int
 	defs      map[string]string
+	curScope  int
+	scopes    []scopeInfo // index = scope id; entry 0 is the root
+}
+
+type scopeInfo struct {
+	parent int
+	clean  bool // the loop is left only from its header: facts about body states are irrelevant after it
 }
 
 type scriptItem struct {
+	scope int // loop-body scope the assumption was made in (0 = none)
 	kind string // "decl", "def", "assume", "raw"
 	name string
 	sort string
@@ -147,7 +155,7 @@ func (s *Script) assume(fact, note string) {
 	if fact == "true" {
 		return
 	}
-	s.items = append(s.items, scriptItem{kind: "assume", body: fact, note: note})
+	s.items = append(s.items, scriptItem{kind: "assume", body: fact, note: note, scope: s.curScope})
 }
 
 func (s *Script) raw(cmd string) {
@@ -207,9 +215,45 @@ func (s *Script) render(upto int, extra []string, getValues []string) string {
 	return s.renderOpt(upto, extra, getValues, false)
 }
 
+// newScope opens a scope for the body of a loop.
+func (s *Script) newScope(parent int, clean bool) int {
+	if len(s.scopes) == 0 {
+		s.scopes = append(s.scopes, scopeInfo{parent: -1, clean: false})
+	}
+	s.scopes = append(s.scopes, scopeInfo{parent: parent, clean: clean})
+	return len(s.scopes) - 1
+}
+
+// visible: an assumption made inside the body of a cleanly exited loop is dropped from
+// obligations outside that loop (dropping assumptions is always sound; the exit state of such
+// a loop derives from the header state only).
+func (s *Script) visible(assumeScope, oblScope int) bool {
+	if assumeScope == 0 || len(s.scopes) == 0 {
+		return true
+	}
+	for a := assumeScope; a > 0; a = s.scopes[a].parent {
+		// is a an ancestor-or-self of oblScope?
+		inside := false
+		for o := oblScope; o > 0; o = s.scopes[o].parent {
+			if o == a {
+				inside = true
+				break
+			}
+		}
+		if !inside && s.scopes[a].clean {
+			return false
+		}
+	}
+	return true
+}
+
 // renderOpt with relaxed=true drops every quantified assumption: the query is weaker, so a
 // model of it is only a candidate counterexample (it must be confirmed by replay).
 func (s *Script) renderOpt(upto int, extra []string, getValues []string, relaxed bool) string {
+	return s.renderScoped(upto, extra, getValues, relaxed, -1)
+}
+
+func (s *Script) renderScoped(upto int, extra []string, getValues []string, relaxed bool, oblScope int) string {
 	var b bytes.Buffer
 	if relaxed {
 		b.WriteString(preludeRelaxed)
@@ -230,6 +274,9 @@ func (s *Script) renderOpt(upto int, extra []string, getValues []string, relaxed
 		case "def":
 			fmt.Fprintf(&b, "(define-fun %s () %s %s)\n", it.name, it.sort, it.body)
 		case "assume":
+			if oblScope >= 0 && !s.visible(it.scope, oblScope) {
+				continue
+			}
 			if relaxed && (strings.Contains(it.body, "(forall ") || strings.Contains(it.body, "(exists ")) && droppable(it.note) {
 				continue
 			}
